@@ -1,6 +1,7 @@
 package shovel
 
 import (
+	"context"
 	"errors"
 
 	"github.com/indexsupply/shovel/zzvrf"
@@ -355,6 +356,46 @@ func ZZ_C05_Moving(batch int) {
 			zzvrf.Assert(n <= depNow, "no-block-processed-beyond-the-referenced-integration")
 		}
 		zzvrf.Reach("advanced")
+	}
+	zzvrf.Reach("end")
+}
+
+// ZZ_C04_Prune: the periodic pruning of recorded positions (PruneTask keeps
+// the newest n positions of every (source, integration) pair). Pairs sharing
+// the source, sharing the integration name, or neither, with arbitrary
+// (interleaving or far apart) block numbers: every pair keeps exactly its own
+// newest min(k, n) positions, so its position and the rows of its table are
+// untouched by the other pairs' histories.
+func ZZ_C04_Prune(ka, kb, kc, n int) {
+	zzReset()
+	zzPreState("s", "a", ka, ka)
+	zzPreState("s", "b", kb, kb)
+	zzPreState("s2", "a", kc, kc)
+	snap := zzCommitted.clone()
+	// PruneTask runs on the pool: the statement is its own committed session
+	tx := &zzTx{db: zzCommitted.clone()}
+	zzOpenTx++
+	err := PruneTask(context.Background(), tx, n)
+	zzvrf.Assert(err == nil, "prune-ok")
+	zzvrf.Assert(tx.Commit(context.Background()) == nil, "prune-commits")
+	for _, pr := range [][2]string{{"s", "a"}, {"s", "b"}, {"s2", "a"}} {
+		before, after := zzFind(&snap, pr[0], pr[1]), zzFind(&zzCommitted, pr[0], pr[1])
+		k := len(before.cur)
+		want := k
+		if n < want {
+			want = n
+		}
+		zzvrf.Assert(len(after.cur) == want, "pair-keeps-its-newest-positions")
+		if len(after.cur) != want {
+			return
+		}
+		for i := 0; i < want; i++ {
+			zzvrf.Assert(after.cur[want-1-i].num == before.cur[k-1-i].num, "kept-positions-are-the-pair's-newest")
+		}
+		if k > 0 && n > 0 {
+			zzvrf.Assert(after.cur[len(after.cur)-1].num == before.cur[k-1].num, "position-unchanged-by-pruning")
+		}
+		zzvrf.Assert(after.hasRows == before.hasRows && after.lo == before.lo && after.hi == before.hi, "table-rows-untouched-by-pruning")
 	}
 	zzvrf.Reach("end")
 }
